@@ -1,6 +1,10 @@
+import os, sys
+sys.path.insert(0, os.path.dirname(os.path.dirname(os.path.abspath(__file__))))
+from srcgen import regen_src  # pre-build generator: Go source -> Gen/SrcPure.v
 PROP = {
     "confirm_scenarios": ['timed', 'noread', 'steady'],
-    "coq": ["C07", "C07b", "C07c"],
+    "pre": [regen_src],
+    "coq": ["C07", "C07b", "C07c", "C05t"],
     "exhaustive": False,
     "rule": "timed (REAL time, timeout 150 ms; thorough: 100/150/250 ms): one public client call (8 small read/write operations, valid "
             "arguments) against a peer that plays a timed stream, on: tcp and rtuovertcp (19200, 115200 bps) attached to the scripted "
